@@ -11,6 +11,7 @@ if os.environ.get('MUT_ROUND2'):
     for d in sorted(glob.glob(f'/verif/seeded/{pid}-m*/meta.json')):
         m = json.load(open(d))
         studied.append(f"  - {', '.join(m.get('files_changed', []))}: {m.get('summary', '')[:260]}")
+PREFER = os.environ.get('MUT_PREFER', '')
 STUDIED = ""
 if studied:
     STUDIED = "\nChanges already studied in an earlier round (produce DIFFERENT ones: another file, or another mechanism in the same file; do not vary these):\n" + "\n".join(studied) + "\n"
@@ -35,7 +36,7 @@ Task: produce {n} different, independent changes ("mutations") to the non-test s
  (3) being realistic — the kind of defect a developer could plausibly introduce (refactoring slip, off-by-one, dropped lock or guard, reordered steps, wrong comparison or clock, cache/index not updated, error swallowed) — and
  (4) needing something SPECIFIC to manifest: a particular interleaving, a crash or fault at a particular point, a multi-step sequence of operations, an unusual input or boundary value, or two cooperating sites that each look fine alone. NOT something ordinary use would expose at once, and not something an existing unit test catches.
 Prefer mutations in different files/mechanisms from each other. Keep each patch small (a few lines).
-{STUDIED}
+{STUDIED}{("Prefer changes in (or cooperating with) one of these files, which earlier rounds did not touch: " + PREFER + " (only where such a change can really break THIS property)." + chr(10)) if PREFER else ""}
 
 For each mutation k (1..{n}) deliver, inside {wt}/mutation<k>/ :
   - patch.diff   : `git diff` of the source change only (no test files), applicable with `git apply` from the repository root of a clean checkout;
